@@ -165,6 +165,10 @@ func (g *srvGen) variant(r2 *rand.Rand) int {
 			g.pool = append(g.pool, a)
 		}
 	}
+	// the lease duration setting at its lower end, with a fraction of a second, and long
+	if r2.Intn(3) == 0 {
+		g.cfg.lease = []time.Duration{60 * time.Second, 61900 * time.Millisecond, 90500 * time.Millisecond, 36 * time.Hour, 1000 * time.Hour}[r2.Intn(5)]
+	}
 	g.op1 = r2.Intn(3) == 0
 	// per-client settings for clients without a reserved address (they identify themselves by client identifier or not)
 	for _, c := range g.clients {
@@ -743,7 +747,23 @@ func (g *srvGen) next() ([]byte, []arpResp, *simClient, byte) {
 			}
 		}
 	}
-	return udpip(src, dst, 68, dport, proto, 64, m.bytes()), arp, cl, kind
+	pkt := udpip(src, dst, 68, dport, proto, 64, m.bytes())
+	if g.r2 != nil && g.r2.Intn(4) == 0 {
+		// the envelope of the request in every dress: source port, TOS, identification, don't-fragment, TTL 1 / 255, IP options, no UDP checksum
+		sport := []uint16{68, 68, 67, 0, 1024, 65535}[g.r2.Intn(6)]
+		pkt = udpip(src, dst, sport, dport, proto, 64, m.bytes())
+		var opts []byte
+		if g.r2.Intn(3) == 0 {
+			opts = make([]byte, 4*(1+g.r2.Intn(10))) // padding option bytes (0 = end of option list)
+			if g.r2.Intn(2) == 0 {
+				for i := range opts {
+					opts[i] = 1 // NOP
+				}
+			}
+		}
+		pkt = ipDress(pkt, byte(g.r2.Intn(256)), uint16(g.r2.Uint32()), []uint16{0, 0x4000, 0x8000}[g.r2.Intn(3)], []byte{1, 64, 128, 255}[g.r2.Intn(4)], opts, g.r2.Intn(4) == 0)
+	}
+	return pkt, arp, cl, kind
 }
 
 func (g *srvGen) observe(cl *simClient, outs []outFrame) {
